@@ -11,6 +11,7 @@
 (*             warned contours: the call raised, R = <<>>)                                *)
 (*   lastq     the "last summed" value returned with the mask, 2 limbs                    *)
 (*   fmq       contour.fm * prod(deltas) (exact rational arithmetic, rounded), 2 limbs    *)
+(*   cmp       per cell sign(f - fm) with f = contour.cell_averaged_joint_pdf(centres)       *)
 (*   warned    the constructor emitted the RuntimeWarning "could not be reached"          *)
 (*                                                                                      *)
 (* Tolerances (units of 10^-18):                                                         *)
@@ -76,6 +77,15 @@ Judge(r) ==
          <<"Densest", (nIn < n /\ nIn > 0) => L2Le(maxOut, minIn)>>,
          <<"Threshold", nIn > 0 => r.lastq = minIn>>,
          <<"FmIsDensity", nIn > 0 => L2Le(L2AbsDiff(r.fmq, minIn), ftol)>>,
+         (* EXACT: cmp[c] = sign(f[c] - fm) for f = contour.cell_averaged_joint_pdf(centres), a *)
+         (* float order comparison.  fm is the density of an enclosed cell, no enclosed cell is *)
+         (* less dense, every denser cell is enclosed - so that f >= fm reproduces the region   *)
+         (* (up to cells tied exactly with fm, which may lie on either side).                   *)
+         <<"FmIsLeastEnclosedDensity",
+             /\ Len(r.cmp) = n
+             /\ AllWhere(r.R, LAMBDA c : /\ (r.cmp[c] > 0 => r.R[c] = 1)
+                                         /\ (r.R[c] = 1 => r.cmp[c] >= 0))
+             /\ CountWhere(r.R, LAMBDA c : r.R[c] = 1 /\ r.cmp[c] = 0) >= 1>>,
          (* the enclosed region is "the cells whose density is at least fm" *)
          <<"Sandwich", AllWhere(r.R, LAMBDA c :
                /\ (L2Lt(L2Add(r.fmq, ftol), Pc(r, c)) => r.R[c] = 1)
